@@ -88,16 +88,19 @@ def main():
         results = {}
         if ok:
             # the hook file is part of HEAD; run the checks
-            for c in checks:
-                for tier in ([tier_first] if tier_first == "thorough" else ["quick", "thorough"]):
-                    t1 = time.time()
-                    env = dict(os.environ, VERIF_REPO=d)
-                    p = subprocess.run(["./check", c, tier], cwd="/verif", env=env, stdout=subprocess.PIPE, stderr=subprocess.STDOUT, text=True)
-                    lines = [l for l in p.stdout.splitlines() if l.startswith("VIOLATION") or l.startswith("  check=")]
-                    results["%s %s" % (c, tier)] = dict(exit=p.returncode, wall_s=round(time.time()-t1, 1), first=" | ".join(lines[:2])[:600])
-                    print(c, tier, "exit", p.returncode, (lines[:2] or [""])[0][:200], (lines[1:2] or [""])[0][:400])
-                    if p.returncode == 1:
-                        break
+            # quick tier of every listed check first; the thorough tier only of the property's own check, and only if all quick tiers miss
+            plan = [(c, "quick") for c in checks] + [(checks[0], "thorough")]
+            if tier_first == "thorough":
+                plan = [(c, "thorough") for c in checks]
+            for c, tier in plan:
+                t1 = time.time()
+                env = dict(os.environ, VERIF_REPO=d)
+                p = subprocess.run(["./check", c, tier], cwd="/verif", env=env, stdout=subprocess.PIPE, stderr=subprocess.STDOUT, text=True)
+                lines = [l for l in p.stdout.splitlines() if l.startswith("VIOLATION") or l.startswith("  check=")]
+                results["%s %s" % (c, tier)] = dict(exit=p.returncode, wall_s=round(time.time()-t1, 1), first=" | ".join(lines[:2])[:600])
+                print(c, tier, "exit", p.returncode, (lines[:2] or [""])[0][:200], (lines[1:2] or [""])[0][:400])
+                if p.returncode == 1:
+                    break
             report["checks"] = results
             dst = os.path.join("/verif/seeded", name)
             os.makedirs(dst, exist_ok=True)
